@@ -16,7 +16,7 @@ import itertools, json, subprocess, sys
 from .common import coq_eval
 from . import typing_common as tc
 
-KINDS = {"wrong-type", "none", "nullable", "missing-arg", "extra-arg", "wrong-recv", "aug-result", "supertype", "supertype-field", "nullable-subtype"}
+KINDS = {"wrong-type", "none", "nullable", "missing-arg", "extra-arg", "wrong-recv", "aug-result", "supertype", "supertype-field", "nullable-subtype", "inferred-wrong", "unwrap"}
 THEOREMS = ["C04_stubs_sound_outside_known", "C04_stubs_sound_refuted", "C04_unsound_row_refutes", "C04_tag_witnesses",
             "C04_partial", "C04_partial_any_tables", "C04_partial_refuted"]
 
